@@ -44,9 +44,13 @@ Theorem C27_setters_keep_invariant : forall st, good (us_uri st) ->
   (forall v, wf_bytes v -> isValidScheme v = true -> good (us_uri (SetScheme st v))) /\
   (forall v, good (us_uri (SetUsername st v))) /\ (forall v, good (us_uri (SetPassword st v))).
 Proof.
-  intros st G. repeat split; intros; cbn.
-  - now apply good_set_path. - now apply good_set_qs. - now apply good_set_hash. - now apply good_set_scheme.
-  - now apply good_set_userinfo. - now apply good_set_userinfo.
+  intros st G. refine (conj _ (conj _ (conj _ (conj _ (conj _ _))))).
+  - intros v. exact (good_set_path _ v G).
+  - intros v H1 H2. exact (good_set_qs _ v G H1 H2).
+  - intros v H1. exact (good_set_hash _ v G H1).
+  - intros v H1 H2. exact (good_set_scheme _ v G H1 H2).
+  - intros v. exact (good_set_userinfo _ v _ G).
+  - intros v. exact (good_set_userinfo _ _ v G).
 Qed.
 Print Assumptions C27_setters_keep_invariant.
 
